@@ -879,11 +879,33 @@ func (c *Ctx) ownerSinkRule(encodeFns []*ssa.Function) int {
 	var keys []sinkKey
 	for k, ws := range writers {
 		// qualifies when a method of the type itself escapes and writes the field
+		// ... directly, or through a raw emit helper of the same type that it calls
 		q := false
+		isMethodOfT := func(fn *ssa.Function) bool {
+			if fn.Signature.Recv() == nil {
+				return false
+			}
+			rn := namedOfRecv(fn.Signature.Recv().Type())
+			return rn != nil && rn.Obj() == k.tn
+		}
 		for fn := range ws {
-			if fn.Signature.Recv() != nil && testsFF(fn) {
-				if rn := namedOfRecv(fn.Signature.Recv().Type()); rn != nil && rn.Obj() == k.tn {
-					q = true
+			if !isMethodOfT(fn) {
+				continue
+			}
+			if testsFF(fn) {
+				q = true
+				break
+			}
+			for _, caller := range encodeFns {
+				if !isMethodOfT(caller) || !testsFF(caller) {
+					continue
+				}
+				for _, b := range caller.Blocks {
+					for _, ins := range b.Instrs {
+						if call, ok := ins.(ssa.CallInstruction); ok && call.Common().StaticCallee() == fn {
+							q = true
+						}
+					}
 				}
 			}
 		}
@@ -932,8 +954,9 @@ func (c *Ctx) ownerSinkRule(encodeFns []*ssa.Function) int {
 	return n
 }
 
-// escapesOrOnlyCalledByEscapers: fn applies the escaping itself (tests against 0xFF), or it is a raw
-// emit helper every one of whose callers does (writeByte -> emit): the obligation moves to the callers.
+// escapesOrOnlyCalledByEscapers: fn applies the escaping itself (tests against 0xFF), or it is an
+// unexported raw emit helper whose every caller is a method of the same type that does
+// (writeByte -> emit): the obligation moves one level up, no further.
 func (c *Ctx) escapesOrOnlyCalledByEscapers(fn *ssa.Function, depth int, visiting map[*ssa.Function]bool) bool {
 	if fn == nil {
 		return false
@@ -941,11 +964,19 @@ func (c *Ctx) escapesOrOnlyCalledByEscapers(fn *ssa.Function, depth int, visitin
 	if testsFF(fn) {
 		return true
 	}
-	if depth > 2 || visiting[fn] {
+	if fn.Object() != nil && fn.Object().Exported() {
 		return false
 	}
-	visiting[fn] = true
-	defer delete(visiting, fn)
+	recvOf := func(f *ssa.Function) *types.TypeName {
+		if f.Signature.Recv() == nil {
+			return nil
+		}
+		if n := namedOfRecv(f.Signature.Recv().Type()); n != nil {
+			return n.Obj()
+		}
+		return nil
+	}
+	own := recvOf(fn)
 	n := 0
 	for _, caller := range c.scopeFuncs() {
 		for _, b := range caller.Blocks {
@@ -955,20 +986,13 @@ func (c *Ctx) escapesOrOnlyCalledByEscapers(fn *ssa.Function, depth int, visitin
 					continue
 				}
 				n++
-				if !c.escapesOrOnlyCalledByEscapers(caller, depth+1, visiting) {
+				if !testsFF(caller) || own == nil || recvOf(caller) != own {
 					return false
 				}
 			}
 		}
 	}
-	if n == 0 {
-		return false
-	}
-	// the helper must not be reachable any other way (exported)
-	if fn.Object() != nil && fn.Object().Exported() {
-		return false
-	}
-	return true
+	return n > 0
 }
 
 // sinkUses: instructions that write through (or leak) the sink stored at field address fa.
